@@ -7,6 +7,7 @@ import (
 	"math/big"
 	"strings"
 	"testing"
+	"testing/iotest"
 
 	"github.com/amzn/ion-go/ion"
 	"pgregory.net/rapid"
@@ -96,6 +97,9 @@ func runC13Int(c C13IntCase) string {
 	st.Sample(func() string { return fmt.Sprintf("int %s as %s", clipStr(c.Int, 40), c.Form) })
 	return drive.Guard2(func() string {
 		r := ion.NewReaderBytes(doc)
+		if len(doc)%3 == 0 {
+			r = ion.NewReader(iotest.OneByteReader(bytes.NewReader(doc)))
+		}
 		if !r.Next() {
 			return fmt.Sprintf("%s of %s: Next()=false err=%v doc=%q", c.Form, c.Int, r.Err(), clip(doc, 80))
 		}
@@ -276,6 +280,9 @@ func runC13Cell(c C13CellCase) string {
 	st.Eval(!own || c.Null, model.DigestBytes(c.Accessor, []byte(fmt.Sprint(c.Kind, c.Null, c.Binary))), "cell")
 	return drive.Guard2(func() string {
 		r := ion.NewReaderBytes(doc)
+		if len(doc)%3 == 0 {
+			r = ion.NewReader(iotest.OneByteReader(bytes.NewReader(doc)))
+		}
 		if !r.Next() {
 			return fmt.Sprintf("Next()=false err=%v", r.Err())
 		}
@@ -358,6 +365,27 @@ func runC13Mag(c C13MagCase) string {
 			got, rerr := drive.Observe(ion.NewReaderBytes(o2))
 			if rerr != nil || len(got) != 1 || model.Diff(model.FloatV(f), got[0]) != "" {
 				return fmt.Sprintf("float %016x via %v: read back %v, %v (output %q)", c.Bits, mode, got, rerr, clip(o2, 60))
+			}
+			// the same bytes delivered one per Read: every bit must still arrive
+			got, rerr = drive.Observe(ion.NewReader(iotest.OneByteReader(bytes.NewReader(o2))))
+			if rerr != nil || len(got) != 1 || model.Diff(model.FloatV(f), got[0]) != "" {
+				return fmt.Sprintf("float %016x via %v, one byte per Read: read back %v, %v (output %q)", c.Bits, mode, got, rerr, clip(o2, 60))
+			}
+			if mode == drive.Binary && c.Bits%16 == 3 && len(o2) > 4 {
+				// 1100 copies in one stream: some payload straddles a buffer refill
+				long := append([]byte{}, o2[:4]...)
+				for i := 0; i < 1100; i++ {
+					long = append(long, o2[4:]...)
+				}
+				got, rerr = drive.Observe(ion.NewReaderBytes(long))
+				if rerr != nil || len(got) != 1100 {
+					return fmt.Sprintf("float %016x x 1100 in one binary stream: %d values, %v", c.Bits, len(got), rerr)
+				}
+				for i := range got {
+					if model.Diff(model.FloatV(f), got[i]) != "" {
+						return fmt.Sprintf("float %016x x 1100 in one binary stream: value %d reads back as %s", c.Bits, i, got[i].String())
+					}
+				}
 			}
 		}
 		return ""
